@@ -105,13 +105,28 @@ class JSONData(ABC):
     def __str__(self):
         return str(self._data)
 
+    @staticmethod
+    def _canonical(v):
+        """
+        Hashable form of a decoded JSON value in which true/false are not the numbers 1/0
+        (Python compares them equal) and the order of object members does not matter
+        """
+        if isinstance(v, bool):
+            return 'bool', v
+        if isinstance(v, dict):
+            return 'object', frozenset((k, JSONData._canonical(x)) for k, x in v.items())
+        if isinstance(v, list):
+            return 'array', tuple(JSONData._canonical(x) for x in v)
+        return 'value', v
+
     def __eq__(self, other):
         if not isinstance(other, JSONData):
             return False
-        return self.__class__ == other.__class__ and self.data == other.data
+        return self.__class__ == other.__class__ and \
+            JSONData._canonical(self.data) == JSONData._canonical(other.data)
 
     def __hash__(self):
-        return hash((self.__class__.__name__, self._data))
+        return hash((self.__class__.__name__, JSONData._canonical(self.data)))
 
     def __repr(self):
         return str(self)
